@@ -338,7 +338,7 @@ class KC:
             rhs = text[m.end():] if target else text
             if target:
                 k = M[target]
-                if k == 'scratch': st['scratch_written'].add(target)
+                if k == 'scratch': st['scratch_written'].add(target); st['scratch_pending_w'] = target
                 elif k == 'node': pass
                 else: raise TranslationError('%s assigns %s (%s)' % (owner, target, k))
             m2 = re.match(r'(_\w+)\s*(?:->|\.)\s*\w+\s*\(', text)
@@ -348,13 +348,15 @@ class KC:
                 k = M[t]
                 if k == 'par': st['params'].add(t)
                 elif k == 'scratch':
-                    if t not in st['scratch_written'] and t != target: raise TranslationError('%s reads scratch %s before writing it' % (owner, t))
+                    st['scratch_events'].append((pc, ('R', t)))      # whether a write precedes it is decided in Coq (C10_kc_scratch_dead)
                 elif k == 'excluded': raise TranslationError('%s reads excluded member %s' % (owner, t))
                 elif t == st['self'] and (st['published'] or t == inplace): pass     # own member after publication
                 elif t == inplace and t != st['self']: raise TranslationError('%s modifies foreign member %s in place' % (owner, t))
                 else: reads.append(t)
             for t in reads:
                 if (pc, ('read', t)) not in steps or True: steps.append((pc, ('read', t)))
+            if target and M[target] == 'scratch':
+                st['scratch_events'].append((pc, ('W', target)))
             if target and M[target] == 'node':
                 steps.append((pc, ('pub', target)))
                 if target == st['self']: st['published'] = True
@@ -385,11 +387,11 @@ class KC:
         if not (m and g[2] == [('stmt', 'return 0')] and not g[3]): raise TranslationError('%s: first statement is not the cache guard' % name)
         guard = m.group(1)
         if M.get(guard) != 'node': raise TranslationError('%s guards on %s which is not a cached member' % (name, guard))
-        st = {'self': tgt, 'published': False, 'params': set(), 'scratch_written': set()}
+        st = {'self': tgt, 'published': False, 'params': set(), 'scratch_written': set(), 'scratch_events': []}
         steps = []
         if not stmts[-1] == ('stmt', 'return 0'): raise TranslationError('%s does not end with return 0' % name)
         self._steps(name, stmts[1:-1], [], steps, st)
-        return {'guard': guard, 'params': sorted(st['params'], key=self.order.index), 'steps': steps}
+        return {'guard': guard, 'params': sorted(st['params'], key=self.order.index), 'steps': steps, 'scratch': st['scratch_events']}
 
     # -------------------------------------------------------------- deletes / setters / getters
     def _delete(self, name, stmts):
@@ -621,6 +623,12 @@ class KC:
         w('(* dimension parameters a setter fixes through _checkDimension* (write-once; constants of the object in the theorems) *)')
         w('Definition kc_dims : list (nat * list mem) := [' + '; '.join('(%d, [%s])' % (i, '; '.join(self.mem(x) for x in v['dims']))
                                                                 for i, (s, v) in enumerate(self.setters.items())) + '].')
+        w('')
+        sc = [n for n in self.order if self.members[n] == 'scratch']
+        w('(* scratch members (recomputed on every use): ' + ', '.join('%d=%s' % (i, n) for i, n in enumerate(sc)) + ' ; per _need body, in order: writes and reads *)')
+        w('Definition kc_scratch : list (nat * list (pc * sev)) := [' + '; '.join(
+            '(%d, [%s])' % (self.nodeids.index(n), '; '.join('(%s, %s %d)' % (self.pc(c), 'SW' if e[0] == 'W' else 'SR', sc.index(e[1])) for c, e in self.nodes[n]['scratch']))
+            for n in self.topo if self.nodes[n]['scratch']) + '].')
         w('')
         w('Definition KCGraph : graph := {| g_inneeds := kc_inneeds; g_nodes := kc_nodes; g_dels := kc_dels; g_setters := kc_setters |}.')
         w('')
